@@ -16,13 +16,13 @@ MANIFEST = {
     "technique": "exhaustive depth-bounded exploration of trajectory-operation histories on real objects against an "
                  "array-tuple reference model, with a precentered-vs-from-scratch RMSD differential in every state",
     "text": "From 3 initial trajectories (5 frames/7 atoms incl. waters with cell and explicit time; no cell/default time; "
-            "1 frame) every sequence of up to 2 (thorough 3) operations of a 31-op alphabet {a copy=False child that shares memory superposed in place (then the parent's own centring must act on the coordinates it has now), t[0], t[-1], t[1:4], t[::2], "
+            "1 frame) every sequence of up to 2 (thorough 3) operations of a 33-op alphabet {t[range(..)] ascending and descending to frame 0, a copy=False child that shares memory superposed in place (then the parent's own centring must act on the coordinates it has now), t[0], t[-1], t[1:4], t[::2], "
             "t[::-1], t[[3,1]], t[mask], slice(copy=False), t+t, join([..]), md.join, join(discard_overlapping_frames=True) over a real overlap, stack, atom_slice (inplace F/T), "
             "center_coordinates (mass_weighted F/T), superpose onto itself and onto an off-origin reference, remove_solvent (inplace F/T, and with exclude=), xyz/time/unitcell assignment} "
             "is executed. After every step: all fields equal the model (same numpy indexing) and have equal length; result "
             "coordinates never share memory with an input; slice(copy=True)/join/atom_slice share no array or topology "
             "object; md.rmsd(precentered=True) equals precentered=False for every frame within the QCP error model; in "
-            "every distinct state a menu of 14 analysis/save calls must leave the trajectory bit-identical.",
+            "every distinct state a menu of 24 analysis/save calls (every writable extension incl. multi-frame restart output) must leave the trajectory bit-identical.",
     "note": "Atom subsets are strictly increasing (as in C02/C04). Superposition/centering values are checked by invariants "
             "(centroid at origin, interatomic distances preserved) and then compared with a float64 model with tolerance; "
             "optimality of superpose is C06's topic.",
@@ -99,6 +99,8 @@ class Model:
             ops += [("slice", 1, 4, 1), ("slice", None, None, 2), ("slice", None, None, -1), ("mask",)]
         if nf >= 4:
             ops.append(("fancy", (3, 1)))
+        # range objects are index sequences, NOT slices: a descending range down to frame 0 has stop -1
+        ops += [("range", nf - 1, -1, -1), ("range", 0, nf, 2)]
         ops.append(("slice_nocopy",))
         ops += [("add",), ("join_list",), ("mdjoin",)]
         if nf >= 2:
@@ -139,6 +141,8 @@ class Model:
             self._index(np.arange(self.nf) % 2 == 0)
         elif k == "fancy":
             self._index(list(op[1]))
+        elif k == "range":
+            self._index(list(range(op[1], op[2], op[3])))
         elif k == "slice_nocopy":
             self._index(slice(0, None, 2))
         elif k in ("add",):
@@ -230,6 +234,8 @@ def apply_real(t, op):
         return t[np.arange(t.n_frames) % 2 == 0], [t], "none"
     if k == "fancy":
         return t[list(op[1])], [t], "none"
+    if k == "range":
+        return t[range(op[1], op[2], op[3])], [t], "none"
     if k == "slice_nocopy":
         return t.slice(slice(0, None, 2), copy=False), [t], "any"
     if k == "add":
@@ -422,6 +428,10 @@ def observers(scratch):
         ("save_xtc", lambda t: t.save(os.path.join(scratch, "o%d.xtc" % os.getpid()))),
         ("save_pdb", lambda t: t.save(os.path.join(scratch, "o%d.pdb" % os.getpid()))),
         ("save_dcd", lambda t: t.save(os.path.join(scratch, "o%d.dcd" % os.getpid())) if t.unitcell_lengths is not None else None),
+    ] + [
+        # every other extension Trajectory.save knows (multi-frame restart output writes numbered files)
+        ("save_" + ext, (lambda t, ext=ext: t.save(os.path.join(scratch, "o%d.%s" % (os.getpid(), ext)))))
+        for ext in ("trr", "nc", "ncrst", "rst7", "mdcrd", "xyz", "gro", "lammpstrj", "pdb.gz", "xyz.gz")
     ]
     return obs
 
